@@ -10,7 +10,8 @@ tracks-2.x work-package) and adds only
                (`track_table::remove`: `invalid_argument` when no row was deleted),
 * `isValid`  — `track::is_valid()` = `track_table::exists`,
 * `update` through a handle whose row is gone (the UPDATE matches no row: the
-  snapshot is still converted, so its rejections are thrown, then nothing is written),
+  snapshot is still converted, so its rejections are thrown first; then, since
+  `fix:` 8862536, `track_deleted` — nothing is written),
 * `handleId` / `handleCopy` — `track::id()` and copy / assignment / destruction of
   a handle (none touches the database).
 
@@ -113,7 +114,7 @@ def step (ops : FOps) (s : Schema) (db : Db) : Op → Db × Res Out
   | .update id x =>
     match db.get id with
     | some _ => let p := db.update ops s id x; lift p.1 p.2 fun _ => Out.unit
-    | none => lift db (writeStore ops s x) fun _ => Out.unit
+    | none => let p := db.update ops s id x; lift p.1 p.2 fun _ => Out.unit     -- `track_deleted` (fix 8862536)
   | .snapshot id => lift db (db.snapshot ops id) Out.snap
   | .get id g =>
     match db.get id with
